@@ -36,6 +36,9 @@ Inductive fout := FRet (r : Z) | FRaise.
 Inductive instr :=
 | IRead (ok miss : nat)      (* x = cache[tag]           ; missing key -> edge `miss` (x unchanged) *)
 | ISetDefault (k : nat)      (* x = cache.setdefault(tag, (False, allocate_lock())) *)
+| INewX (k : nat)            (* x = (False, allocate_lock())      a private tuple, not in the cache *)
+| ISetDefaultX (assign : bool) (k : nat)
+                             (* [x =] cache.setdefault(tag, x)    with or without using the result *)
 | IIfDone (yes no : nat)     (* if x[0]: ...  *)
 | IAcquire (k : nat)         (* x[1].acquire()  (entry of `with x[1]:`); blocks while held *)
 | ICallF (ok ex : nat)       (* result = func()          ; exception -> edge `ex` *)
@@ -103,6 +106,25 @@ Definition step_fn (p : prog) (s : state) (t : nat) (o : fout) : option state :=
           | c =>
               Some (mkSt (setth s t (mkTl (At k) (xof c) (res me) (held me) (fraised me) (nstart me)))
                          (cache s) (owner s) (S (nextlock s)) (ndone s))
+          end
+      | Some (INewX k) =>
+          Some (mkSt (setth s t (mkTl (At k) (XPend (nextlock s)) (res me) (held me) (fraised me) (nstart me)))
+                     (cache s) (owner s) (S (nextlock s)) (ndone s))
+      | Some (ISetDefaultX assign k) =>
+          match cache s with
+          | Absent =>
+              match xv me with
+              | XPend l => Some (mkSt (setth s t (goto me (At k))) (Pending l) (owner s) (nextlock s) (ndone s))
+              | XDone r => Some (mkSt (setth s t (goto me (At k))) (Done r) (owner s) (nextlock s) (ndone s))
+              | XNone => Some (loc s t (goto me Stuck))
+              end
+          | c =>
+              match xv me with
+              | XNone => Some (loc s t (goto me Stuck))
+              | _ => if assign
+                     then Some (loc s t (mkTl (At k) (xof c) (res me) (held me) (fraised me) (nstart me)))
+                     else Some (loc s t (goto me (At k)))
+              end
           end
       | Some (IIfDone yes no) =>
           match xv me with
@@ -174,7 +196,7 @@ Definition is_f_raises_step (p : prog) (s : state) (t : nat) (s' : state) : Prop
 Definition succs (i : instr) : list nat :=
   match i with
   | IRead a b | IIfDone a b | ICallF a b => [a; b]
-  | ISetDefault k | IAcquire k | IStore k | IRelease k => [k]
+  | ISetDefault k | INewX k | ISetDefaultX _ k | IAcquire k | IStore k | IRelease k => [k]
   | IRetX | IRetResult | IRaise _ => []
   end.
 Fixpoint forward_from (n : nat) (p : prog) : bool :=
@@ -215,7 +237,7 @@ Definition c_prog : prog := [
    outcome, store, release); the thread-local instructions that follow one (tests, returns)
    commute with every other thread's steps and are executed eagerly. *)
 Definition is_local (i : instr) : bool :=
-  match i with IIfDone _ _ | IRetX | IRetResult | IRaise _ => true | _ => false end.
+  match i with IIfDone _ _ | IRetX | IRetResult | IRaise _ | INewX _ => true | _ => false end.
 
 Fixpoint local_closure (p : prog) (fuel : nat) (s : state) (t : nat) : state :=
   match fuel with
@@ -246,7 +268,7 @@ Definition kind_code (p : prog) (s : state) (t : nat) (o : fout) : Z :=
   match pc (th s t) with
   | InF _ => match o with FRet _ => 5 | FRaise => 6 end
   | At n => match nth_error p n with
-            | Some (IRead _ _) => 1 | Some (ISetDefault _) => 2 | Some (IAcquire _) => 3
+            | Some (IRead _ _) => 1 | Some (ISetDefault _) | Some (ISetDefaultX _ _) => 2 | Some (IAcquire _) => 3
             | Some (ICallF _ _) => 4 | Some (IStore _) => 7 | Some (IRelease _) => 8
             | _ => 99
             end
